@@ -40,7 +40,15 @@ Kinds == {"grouping", "typedef", "identity", "feature"}
 (* An instance I is a record
      fam, shape : labels (reporting only)
      mods  : modules supplied                      (subset of Mods)
-     imp   : import statements <<m, t>>            (prefix "p" \o t)
+     imp   : import statements <<u, t>>            (u a module or a submodule; prefix "p" \o t
+             unless alias says otherwise).  An import written in a submodule is a dependency
+             of its module: cycles and the sort order are about the LIFTED graph (RFC 6020 5.1:
+             a module is its submodules), while prefixes stay per textual unit.
+     alias : <<u, t, p>>  unit u imports t under prefix p (spelling only: a submodule may use, for
+             another module, the very prefix string its module uses)
+     spell : how a reference to a definition of the same module is SPELLED: "u" unprefixed, "o" with
+             the module's own prefix, "mix" (some links one way, some the other).  RFC 6020 5.5 / 6.2.1:
+             both spellings mean the same, so the meaning below does not look at it.
      subs  : submodules supplied <<s, b>>          (s belongs-to b)
      inc   : include statements <<u, s>>           (u a module or submodule)
      defs  : definitions [k, n, home, refs, nest]  (k in Kinds; home is the SCOPE in
@@ -104,7 +112,10 @@ RootResolves(I, r) == IF r.k = "subtype" THEN SubTypeOK(I, r) ELSE Resolves(I, r
 BadBelongs(I) == \E sb \in I.subs : sb[2] \notin I.mods
 BadInclude(I) == \E m \in I.mods : \E e \in IncEdgesOf(I, m) : e[2] \notin SubsOf(I, m)
 IncludeCycle(I) == HasCycle(I.inc)
-ImportCycle(I) == HasCycle(I.imp)
+UnitMod(I, u) == IF \E sb \in I.subs : sb[1] = u THEN (CHOOSE sb \in I.subs : sb[1] = u)[2] ELSE u
+LiftImp(I) == {<<UnitMod(I, e[1]), e[2]>> : e \in I.imp}
+ModImports(I, m) == {e[2] : e \in {x \in LiftImp(I) : x[1] = m}}
+ImportCycle(I) == HasCycle(LiftImp(I))
 ImportAbsent(I) == \E e \in I.imp : e[2] \notin I.mods
 DefCycle(I) == \E k \in Kinds : HasCycle(KEdges(I, k))
 Dangling(I) == \/ \E d \in I.defs : \E r \in d.refs : ~Resolves(I, d.home, d.k, r)
@@ -147,18 +158,19 @@ Literal(I, m) == {Node(Top(m), "c", "", "", {}), Node(Top(m) \o "/" \o m \o ":l0
                  \cup UNION {{Node(ScopeTop(h), "c", "", "", {}), Node(ScopeTop(h) \o "/" \o m \o ":l0", "l", "", "", {})} : h \in ScopesOf(I, m)}
 OwnNodes(I, m) == Literal(I, m) \cup UNION {RootNodes(I, r) : r \in {x \in I.roots : ModH(x.home) = m}}
 AugTarget(a) == Top(a.t) \o "/" \o a.t \o ":k" \o a.n
-AugLeaf(a) == Node(AugTarget(a) \o "/" \o a.m \o ":x" \o a.m, "l", "", "", {})
+\* (a.m is the unit in which the augment is written; its leaf belongs to the namespace of that unit's module)
+AugLeaf(I, a) == Node(AugTarget(a) \o "/" \o UnitMod(I, a.m) \o ":x" \o a.m, "l", "", "", {})
 DevTarget(d) == IF d.how = "nsx" THEN Top(d.t) \o "/" \o d.t \o ":k" \o d.n \o "/" \o d.by \o ":x" \o d.by
                 ELSE Top(d.t) \o "/" \o d.t \o ":k" \o d.n \o "/" \o d.t \o ":l" \o d.n
 Has(S, p, t) == \E x \in S : x.p = p /\ x.t = t
 Collides(S) == \E x \in S : \E y \in S : x.p = y.p /\ x.via # y.via
 \* prefixes used by an augment / deviation must be imported
-AugPrefixOK(I, a) == a.t \in Imports(I, a.m) /\ a.t \in I.mods
+AugPrefixOK(I, a) == (a.t = UnitMod(I, a.m) \/ a.t \in Imports(I, a.m)) /\ a.t \in I.mods
 DevPrefixOK(I, d) == /\ d.t \in Imports(I, d.m) /\ d.t \in I.mods
                      /\ (d.how = "nsx" => d.by \in Imports(I, d.m) /\ d.by \in I.mods)
 FullTree(I) ==    \* before deviations
   LET own == UNION {OwnNodes(I, m) : m \in I.mods}
-  IN own \cup {AugLeaf(a) : a \in {x \in I.augs : Has(own, AugTarget(x), "c")}}
+  IN own \cup {AugLeaf(I, a) : a \in {x \in I.augs : Has(own, AugTarget(x), "c")}}
 TargetError(I) ==
   LET own == UNION {OwnNodes(I, m) : m \in I.mods}  full == FullTree(I) IN
   \/ \E a \in I.augs : ~AugPrefixOK(I, a) \/ ~Has(own, AugTarget(a), "c")
@@ -195,9 +207,24 @@ Defects(I) ==
   \cup (IF DanglingUsed(I) THEN {"dangling-used"} ELSE IF Dangling(I) THEN {"dangling-unused"} ELSE {})
   \cup (IF ~RefError(I) /\ Collides(UNION {OwnNodes(I, m) : m \in I.mods}) THEN {"name-clash"} ELSE {})
   \cup (IF ~RefError(I) /\ TargetError(I) THEN {"target-missing"} ELSE {})
-JudgeVerdict(I) == \/ Verdict(I) = "ok"
+\* Which local references carry the module's own prefix (the renderer follows exactly this rule): all of them
+\* ("o"), or ("mix") those of the definitions a and c and of the data nodes using a typedef or a feature.
+OwnSpelled(I, src) == I.spell = "o" \/ (I.spell = "mix" /\ src \in {"a", "c", "typedef", "feature"})
+\* An own-prefixed reference that has to be resolved in an enclosing scope below the top level (a typedef or
+\* grouping defined inside a container).  RFC 6020 5.5 resolves it like an unprefixed one, so the meaning above says
+\* "ok" for a well-formed instance; but C11 only demands termination, that CYCLES are reported and determinism - a
+\* compiler that deterministically refuses such a valid module does not break it.  For these instances the
+\* expectation "ok" is therefore not judged (either outcome is accepted; no crash, same outcome on every run and
+\* order are still required); an expected ERROR (cycle, dangling, ...) stays judged - any error verdict satisfies it.
+ScopedOwnRef(I) ==
+  \/ \E d \in I.defs : \E r \in d.refs : /\ r.m = ModH(d.home) /\ OwnSpelled(I, d.n) /\ Resolves(I, d.home, d.k, r)
+                                           /\ Scoped(TargetDef(I, d.k, d.home, r).home)
+  \/ \E r \in {x \in I.roots : x.k \in Kinds} : /\ r.m = ModH(r.home) /\ OwnSpelled(I, r.k) /\ RootResolves(I, r)
+                                                  /\ Scoped(TargetDef(I, r.k, r.home, Ref(r.m, r.n)).home)
+JudgeVerdict0(I) == \/ Verdict(I) = "ok"
                    \/ BadBelongs(I) \/ BadInclude(I) \/ IncludeCycle(I) \/ ImportCycle(I) \/ ImportAbsent(I)
                    \/ DefCycle(I) \/ DanglingUsed(I) \/ Shadow(I) \/ ~RefError(I)
+JudgeVerdict(I) == JudgeVerdict0(I) /\ (ScopedOwnRef(I) => Verdict(I) = "error")
 
 \* ------------------------------------------------------------- mechanism
 VARIABLES inst, phase, todo, order, pos, trees, out
@@ -211,7 +238,7 @@ IdOf(I, key) == CHOOSE d \in DefsK(I, "identity") : d.home \o ":" \o d.n = key
 \* vertices of the import graph: the modules and every imported name
 Vertices(I) == I.mods \cup {e[2] : e \in I.imp}
 Perms(S) == {f \in [1..Cardinality(S) -> S] : \A i, j \in 1..Cardinality(S) : i # j => f[i] # f[j]}
-TopoOrders(I) == {f \in Perms(Vertices(I)) : \A i, j \in 1..Len(f) : <<f[i], f[j]>> \in I.imp => j < i}
+TopoOrders(I) == {f \in Perms(Vertices(I)) : \A i, j \in 1..Len(f) : <<f[i], f[j]>> \in LiftImp(I) => j < i}
 Orders(I) == IF SortMode = "topo" THEN TopoOrders(I) ELSE Perms(Vertices(I))
 \* keys of the loop of a phase (map loops: a set; sort-order loops use order/pos)
 KeysOf(I, p) == CASE p = "attach" -> {sb[1] : sb \in I.subs}
@@ -273,7 +300,7 @@ MapPhase(p, nxt, Bad(_, _)) ==
      ELSE \E k \in todo : IF Bad(inst, k) THEN Fail ELSE Consume(k)
 
 Tsort == /\ phase = "tsort"
-         /\ IF SortMode = "topo" /\ HasCycle(inst.imp) THEN Fail
+         /\ IF SortMode = "topo" /\ HasCycle(LiftImp(inst)) THEN Fail
             ELSE \E f \in Orders(inst) :
                    /\ order' = f /\ phase' = "features" /\ todo' = KeysOf(inst, "features") /\ pos' = 1
                    /\ UNCHANGED <<inst, trees, out>>
@@ -285,10 +312,10 @@ Expand == /\ phase = "expand"
                   IF ExpandBad(inst, m) THEN Fail
                   ELSE LET own == ExpandedOwn(inst, m)
                            t1 == [trees EXCEPT ![m] = trees[m] \cup own]      \* keeps what others augmented into m earlier
-                           myaugs == {a \in inst.augs : a.m = m}
+                           myaugs == {a \in inst.augs : UnitMod(inst, a.m) = m}
                        IN IF Collides(own) \/ \E a \in myaugs : ~AugPrefixOK(inst, a) \/ ~Has(t1[a.t], AugTarget(a), "c")
                           THEN Fail
-                          ELSE /\ trees' = [x \in DOMAIN t1 |-> t1[x] \cup {AugLeaf(a) : a \in {y \in myaugs : y.t = x}}]
+                          ELSE /\ trees' = [x \in DOMAIN t1 |-> t1[x] \cup {AugLeaf(inst, a) : a \in {y \in myaugs : y.t = x}}]
                                /\ pos' = pos + 1 /\ UNCHANGED <<inst, phase, todo, order, out>>
 
 Deviate == /\ phase = "deviate"
